@@ -319,3 +319,34 @@ Proof.
     + intros x Hx. pose proof (hi_in _ _ _ H x ltac:(unfold all_regs; apply in_or_app; right; apply Ips; exact Hx)) as Ix.
       unfold in_msg in Ix. destruct (in_seg_elim _ _ _ _ Ix) as (_ & _ & _ & _ & Y5). exact Y5.
 Qed.
+
+(* ------------------------------------------------------------------ read back: the handle *)
+(* after a pointer setter without copy (any placement, any kind of table object incl. composite
+   lists), Segment.readPtr at the slot returns the handle of exactly the object set - for every
+   read limit and depth limit for which it returns a handle at all *)
+Theorem read_after_place m objs pads w q ht raw w' strict rl depth p rl' :
+  w_dst w = m -> hinv m objs pads ->
+  In q ((0, 0) :: flat_map slots objs) -> In ht objs ->
+  (p_kind ht = KStruct -> os_isZero (p_size ht) = false) ->
+  raw_of ht = Ok raw ->
+  place w (fst q) (snd q) (p_seg ht) (obj_start ht) raw = Ok w' ->
+  nsegs (w_dst w') < 4294967296 ->
+  readPtr strict (bm_data (w_dst w')) rl (fst q) (nth (Z.to_nat (fst q)) (bm_data (w_dst w')) []) (snd q) depth = (Ok p, rl') ->
+  p = handle_of ht depth.
+Proof.
+  intros Ew H Hq Hht Hnz Hraw Hpl Hns HR.
+  destruct (hinv_place_full m objs pads w q ht raw w' Ew H Hq Hht Hnz Hraw Hpl Hns) as (pads' & H' & _ & _ & _ & Pl).
+  set (m' := w_dst w') in *.
+  destruct (hi_good _ _ _ H' ht Hht) as [V G]. pose proof (hi_tags _ _ _ H' ht Hht) as T.
+  destruct (obj_decode (bm_data m') ht V G T Hnz) as (raw' & Er' & Rw & _). rewrite Hraw in Er'. apply Ok_inj in Er'. subst raw'.
+  pose proof G as (_ & Gs & Gi & Go). destruct (in_seg_elim _ _ _ _ Gi) as (T1 & T2 & T3 & T4 & T5).
+  rewrite seg_len_bm in T4. pose proof (hi_small _ _ _ H' (p_seg ht)) as Hsh. unfold maxSegmentSize in Hsh.
+  destruct (slot_geometry _ _ _ _ H Hq) as (Q1 & Q2 & Q3 & Q4 & _).
+  apply (read_resolved_obj strict (bm_data m') rl (fst q) (snd q) ht raw depth p rl'); auto.
+  apply (placed_resolves_to (bm_data m') (fst q) (snd q) (p_seg ht) (obj_start ht) raw _ pads' Pl); auto; try lia.
+  - apply raw_word_ok. exact Rw.
+  - rewrite zlen_bm. lia.
+  - intros i Hi. rewrite seg_len_bm. pose proof (hi_small _ _ _ H' i) as X. unfold maxSegmentSize in X. exact X.
+  - intros x Hx. pose proof (hi_in _ _ _ H' x ltac:(unfold all_regs; apply in_or_app; right; apply in_or_app; right; exact Hx)) as Ix.
+    unfold in_msg in Ix. destruct (in_seg_elim _ _ _ _ Ix) as (_ & _ & _ & _ & Y5). exact Y5.
+Qed.
